@@ -331,14 +331,21 @@ def _case_strategy(fmt_kind):
         container = "zip" if fmt not in ("pdf", "rtf") else None
         def degenerate(t):
             case, which = t
-            if which:
+            if which and which.startswith("size:"):
+                for u in case["units"]:
+                    for it in u:
+                        if it["k"] == "img":
+                            it["odd_size"] = which[5:]
+                            return case
+            elif which:
                 for u in case["units"]:
                     for it in u:
                         if it["k"] == "img" and it["type"] == "png":
                             it["zero"] = which
                             return case
             return case
-        base = st.fixed_dictionaries({"kind": st.just("images"), "case": st.tuples(c14.cases(fmt), st.sampled_from([None, None, "h", "w", "both"])).map(degenerate), "path": path})
+        odd = ["size:auto", "size:cm", "size:.", "size: ", "size:50%", "size:-2cm", "size:1e3cm"] if fmt in ("odt", "odp", "ods", "odg") else []
+        base = st.fixed_dictionaries({"kind": st.just("images"), "case": st.tuples(c14.cases(fmt), st.sampled_from([None, None, "h", "w", "both"] + odd)).map(degenerate), "path": path})
     mutated = st.tuples(base, mutate.recipes(container, fmt)).map(lambda t: dict(t[0], mutation=t[1], props={}))
     return base, mutated
 
